@@ -17,10 +17,11 @@ import (
 )
 
 type Clause struct {
-	Label string
-	Src   string
-	Expr  ast.Expr
-	Line  string // file:line
+	Label  string
+	Src    string
+	Expr   ast.Expr
+	Line   string   // file:line
+	Forall []AnyVar // top-level universal quantifier: "forall k T, j U :: body"
 }
 
 type AnyVar struct {
@@ -121,6 +122,22 @@ func (db *ContractDB) clause(src, where string) Clause {
 		src = m[2]
 	}
 	c.Src = src
+	if strings.HasPrefix(src, "forall ") {
+		k := strings.Index(src, "::")
+		if k < 0 {
+			db.errf("%s: forall without ::", where)
+		} else {
+			for _, d := range splitTop(src[len("forall "):k]) {
+				f := strings.SplitN(strings.TrimSpace(d), " ", 2)
+				if len(f) != 2 {
+					db.errf("%s: forall variable %q needs a type", where, d)
+					continue
+				}
+				c.Forall = append(c.Forall, AnyVar{f[0], strings.TrimSpace(f[1])})
+			}
+			src = strings.TrimSpace(src[k+2:])
+		}
+	}
 	e, err := parseExprSrc(src)
 	if err != nil {
 		db.errf("%s: cannot parse %q: %v", where, src, err)
